@@ -9,6 +9,20 @@ mkdir -p bin
 (cd checker && go build -o "../bin/gedcheck.$$" ./cmd/gedcheck && mv -f "../bin/gedcheck.$$" ../bin/gedcheck) || { rm -f "bin/gedcheck.$$"; echo "ANALYSIS-ERROR cannot build gedcheck"; exit 2; }
 tier="${2:-${VERIF_TIER:-quick}}"
 if [ "$tier" = thorough ]; then
-  exec bin/gedcheck -prop "$1" -tier thorough
+  # 1. the rules over the CHA-resolved call graph as well (superset of VTA's edges)
+  bin/gedcheck -prop "$1" -tier thorough
+  rc=$?
+  # 2. may-panic properties: the compiler's bounds-check proofs differ with the int width; repeat for GOARCH=386
+  case "$1" in C03|C14|C15)
+    if [ $rc -eq 0 ]; then
+      echo "--- configuration GOARCH=386"
+      GEDCHECK_GOARCH=386 GEDCHECK_NO_EVIDENCE=1 bin/gedcheck -prop "$1" -tier quick
+      rc=$?
+    fi;;
+  esac
+  # 3. sensitivity self-test: the kept seeded changes this check detects, on scratch copies of the current tree
+  echo "--- self-test (seeded changes on scratch copies of the current tree)"
+  python3 tools/selftest.py "$1" 6
+  exit $rc
 fi
 exec bin/gedcheck -prop "$1" -tier quick
